@@ -49,6 +49,14 @@ def main():
         mod.rules(ctx)
     extra = getattr(mod, "extra_coverage", None)
     extra_cov = extra(ctx) if extra and facts is not None else None
+    if tier == "thorough" and facts is not None:
+        import selftest
+        st = selftest.run(prop, engine.REPO)
+        extra_cov = dict(extra_cov or {}, selftest=st)
+        print("%s selftest on scratch copies of this tree: %d variants; mutants %s, seeded %s, benign %s"
+              % (prop, st["variants"], st["mutants"], st["seeded"], st["benign"]))
+        for u in st["unexpected"]:
+            print("  selftest %s %s: %s %s" % (u["kind"], u["id"], u["status"], u["detail"]))
     rc = engine.finish(ctx, mod.LEVEL, mod.UNDECIDED, mod.ASSUMPTIONS, t0, extra_cov=extra_cov,
                        checker_cmd="./check %s --tier %s" % (prop, tier),
                        trusted=getattr(mod, "TRUSTED", None))
